@@ -1,5 +1,6 @@
 import Amgcl.Proofs.DefinedTranspose
 import Amgcl.Proofs.DefinedOnePass
+import Amgcl.Proofs.DefinedPasses
 import Mathlib.Algebra.Order.Field.Rat
 /-!
 # C10 (continued, package alloc2) — further allocation sites: cell-level definedness for all inputs
@@ -20,6 +21,16 @@ heap content with every `written` flag false; `load` of an unwritten cell = `non
   completely written, cells `[0, nnz)` of `col`/`val` written with the rows in storage order, cells `[nnz, cap)` never
   touched, no cell loaded; instances `ilu0_LU_defined` (`cap` = the counts of the counting loop = exactly `nnz`) and
   `ilut_LU_defined` (`cap = Σ lenL·p` ≥ what `move_to` stores, row by row).
+* `emin_Af_defined` — `smoothed_aggr_emin`, the filtered matrix `Af` (`Af.ptr`, `Af.col+val`): the width loop
+  (`row_width` decremented per weak off-diagonal entry) and the fill loop (diagonal or strong entries) agree.
+* `pointwise_matrix_defined` — `Ap`: the counting pass as written (increments of the zero-filled `ptr`, no values)
+  makes exactly as many increments as the filling pass stores entries (`countBlockRow_eq`: simulation on the control
+  state `done`/`cur_col`/cursors), so the fill from the loaded `Ap.ptr[ip]` writes every cell; result = flat image of
+  `pointwiseMatrix` (the model C04/C08 validate).
+* `unblock_ptr_defined` — `adapter::unblock_matrix`, `A.ptr`.
+* `tri_defined` with instances `iluk_D_defined`, `ilut_D_defined` — `D = numa_vector(n, false)` written at `i` in row
+  `i`, loaded only at indices below the current row.
+* `spectral_radius_power_defined` — `b0`, `b1 = numa_vector(n, false)` of the power iteration.
 -/
 namespace Amgcl.C10d
 open Amgcl Amgcl.Defined
@@ -227,5 +238,210 @@ example : load (onePass (#[[(0, (1 : Rat))], [], [(0, 2), (1, 3)]] : Array (Row 
     #[5, 5, 5, 5, 5]).fill.col 3 = none :=
   ((ilut_LU_defined (#[[(0, (1 : Rat))], [], [(0, 2), (1, 3)]] : Array (Row Rat)) (fun i => #[2, 1, 2].getD i 0)
     (by decide) #[9, 9, 9, 9] #[8, 8, 8, 8, 8] #[5, 5, 5, 5, 5] rfl (by decide) (by decide)).2.2.2.2 3 (by decide)).1
+
+/-! ## `smoothed_aggr_emin`: the filtered matrix -/
+section emin
+variable {K : Type}
+
+/-- **`Af` of `smoothed_aggr_emin::transfer_operators`** for every matrix (entries paired with their strength flag),
+every filtered diagonal and any two prior heap contents: no unwritten cell is loaded, all cells of `Af.ptr`, `Af.col`,
+`Af.val` are written, the result is the flat image of the filtered rows -/
+theorem emin_Af_defined (rowsS : Array (List ((Nat × K) × Bool))) (dia : Nat → K) (jp jp' : Array Nat)
+    (jc jc' : Nat → Array Nat) (jv jv' : Nat → Array K)
+    (hp : jp.size = rowsS.size + 1) (hc : ∀ k, (jc k).size = k) (hv : ∀ k, (jv k).size = k)
+    (hp' : jp'.size = rowsS.size + 1) (hc' : ∀ k, (jc' k).size = k) (hv' : ∀ k, (jv' k).size = k) :
+    (eminAfCells rowsS dia jp jc jv).ok = true ∧ allWritten (eminAfCells rowsS dia jp jc jv).ptr = true ∧
+      allWritten (eminAfCells rowsS dia jp jc jv).col = true ∧ allWritten (eminAfCells rowsS dia jp jc jv).val = true ∧
+      eminAfCells rowsS dia jp jc jv = CrsCells.ofRows
+        (Array.ofFn (n := rowsS.size) fun i => eminFillRow i.val (dia i.val) (rowsS.getD i.val [])) ∧
+      eminAfCells rowsS dia jp jc jv = eminAfCells rowsS dia jp' jc' jv' := by
+  have hn : (Array.ofFn (n := rowsS.size) fun i => eminFillRow i.val (dia i.val) (rowsS.getD i.val [])).size
+      = rowsS.size := by simp
+  have hw : ∀ i, i < (Array.ofFn (n := rowsS.size) fun i => eminFillRow i.val (dia i.val) (rowsS.getD i.val [])).size →
+      eminWidth i (rowsS.getD i [])
+        = ((Array.ofFn (n := rowsS.size) fun i => eminFillRow i.val (dia i.val) (rowsS.getD i.val [])).getD i []).length := by
+    intro i hi
+    rw [hn] at hi
+    rw [eminWidth_eq i (dia i)]
+    simp [Array.getD_eq_getD_getElem?, hi]
+  unfold eminAfCells
+  rw [twoPassW_eq _ _ hw, twoPassW_eq _ _ hw]
+  rw [twoPass_spec _ jp jc jv (by rw [hn]; exact hp) hc hv, twoPass_spec _ jp' jc' jv' (by rw [hn]; exact hp') hc' hv']
+  obtain ⟨a, b, c, d⟩ := ofRows_allWritten
+    (Array.ofFn (n := rowsS.size) fun i => eminFillRow i.val (dia i.val) (rowsS.getD i.val []))
+  exact ⟨d, a, b, c, rfl, rfl⟩
+
+end emin
+
+/-- non-vacuity: 2×2, row 0 = diag + weak off-diagonal, row 1 = strong off-diagonal + diag -/
+example : erase (eminAfCells (K := Rat) #[[((0, 2), false), ((1, -1), false)], [((0, -1), true), ((1, 2), false)]]
+    (fun i => #[1, 2].getD i 0) #[9, 9, 9] (fun k => Array.replicate k 5) (fun k => Array.replicate k 7)).ptr
+    = #[0, 1, 3] := by decide +kernel
+
+/-! ## `backend::pointwise_matrix` -/
+section pointwise
+variable {K : Type} [Zero K] [LT K] [DecidableLT K]
+
+/-- **`pointwise_matrix(A, b)`** for every matrix and block size accepted by the precondition and any two prior heap
+contents: the increments of the counting pass and the stores of the filling pass agree block row by block row, no
+unwritten cell is loaded, every cell of `Ap.ptr` / `Ap.col` / `Ap.val` is written, and the cells are the flat image of
+the row-level model -/
+theorem pointwise_matrix_defined (norm : K → K) (A : CRS K) (b : Nat) (M : CRS K)
+    (hM : pointwiseMatrix norm A b = .ok M) (jp jp' : Array Nat) (jc jc' : Nat → Array Nat) (jv jv' : Nat → Array K)
+    (hp : jp.size = A.nrows / b + 1) (hc : ∀ k, (jc k).size = k) (hv : ∀ k, (jv k).size = k)
+    (hp' : jp'.size = A.nrows / b + 1) (hc' : ∀ k, (jc' k).size = k) (hv' : ∀ k, (jv' k).size = k) :
+    (pointwiseCells norm A b jp jc jv).ok = true ∧ allWritten (pointwiseCells norm A b jp jc jv).ptr = true ∧
+      allWritten (pointwiseCells norm A b jp jc jv).col = true ∧ allWritten (pointwiseCells norm A b jp jc jv).val = true ∧
+      pointwiseCells norm A b jp jc jv = CrsCells.ofRows M.rows ∧
+      pointwiseCells norm A b jp jc jv = pointwiseCells norm A b jp' jc' jv' := by
+  have hrows : M.rows = Array.ofFn (n := A.nrows / b) fun ip =>
+      Coarsening.pwBlockRow norm b ((List.range b).map fun k => A.row (ip.val * b + k)) := by
+    unfold pointwiseMatrix at hM
+    by_cases hb : b = 0
+    · simp [hb] at hM
+    · simp only [hb, if_false] at hM
+      by_cases hd : A.nrows / b * b ≠ A.nrows
+      · simp [hd] at hM
+      · simp only [hd, if_false] at hM
+        injection hM with hM
+        rw [← hM]
+  have hn : M.rows.size = A.nrows / b := by rw [hrows]; simp
+  have hw : ∀ i, i < M.rows.size →
+      PwC.countBlockRow b ((List.range b).map fun k => A.row (i * b + k)) = (M.rows.getD i []).length := by
+    intro i hi
+    rw [countBlockRow_eq norm]
+    rw [hn] at hi
+    simp [hrows, Array.getD_eq_getD_getElem?, hi]
+  have e : ∀ (jp : Array Nat) (jc : Nat → Array Nat) (jv : Nat → Array K),
+      pointwiseCells norm A b jp jc jv = twoPassInc M.rows
+        (fun ip => PwC.countBlockRow b ((List.range b).map fun k => A.row (ip * b + k))) jp jc jv := by
+    intro jp jc jv; unfold pointwiseCells; rw [hrows]
+  rw [e, e, twoPassInc_spec M.rows _ hw jp jc jv (by rw [hn]; exact hp) hc hv,
+    twoPassInc_spec M.rows _ hw jp' jc' jv' (by rw [hn]; exact hp') hc' hv']
+  obtain ⟨a, b', c, d⟩ := ofRows_allWritten M.rows
+  exact ⟨d, a, b', c, rfl, rfl⟩
+
+end pointwise
+
+/-- a 4×4 matrix, block size 2 -/
+def exPw : CRS Rat := ⟨4, #[[(0, 1), (3, -2)], [(1, 3)], [(2, 5), (0, -1)], [(3, 4), (2, 1)]]⟩
+def absQ (x : Rat) : Rat := if x < 0 then -x else x
+
+/-- non-vacuity of `pointwise_matrix_defined`: the row-level model accepts `exPw`, `b = 2` -/
+example : ∃ M, pointwiseMatrix absQ exPw 2 = .ok M ∧
+    (pointwiseCells absQ exPw 2 #[9, 9, 9] (fun k => Array.replicate k 5) (fun k => Array.replicate k 7)).ok = true := by
+  have h : ∃ M, pointwiseMatrix absQ exPw 2 = .ok M := by
+    unfold pointwiseMatrix; simp [exPw, CRS.nrows]
+  obtain ⟨M, hM⟩ := h
+  exact ⟨M, hM, (pointwise_matrix_defined absQ exPw 2 M hM #[9, 9, 9] #[0, 0, 0] (fun k => Array.replicate k 5)
+    (fun k => Array.replicate k 0) (fun k => Array.replicate k 7) (fun k => Array.replicate k 0)
+    (by decide) (fun k => by simp) (fun k => by simp) (by decide) (fun k => by simp) (fun k => by simp)).1⟩
+
+/-- the cells on a sorted 4×4 matrix with natural entries, block size 2: four blocks -/
+example : erase (pointwiseCells (fun x : Nat => x) ⟨4, #[[(0, 1), (3, 2)], [(1, 3)], [(0, 1), (2, 5)], [(2, 1), (3, 4)]]⟩ 2
+    #[9, 9, 9] (fun k => Array.replicate k 5) (fun k => Array.replicate k 7)).ptr = #[0, 2, 4] := by decide +kernel
+
+example : erase (pointwiseCells (fun x : Nat => x) ⟨4, #[[(0, 1), (3, 2)], [(1, 3)], [(0, 1), (2, 5)], [(2, 1), (3, 4)]]⟩ 2
+    #[9, 9, 9] (fun k => Array.replicate k 5) (fun k => Array.replicate k 7)).val = #[3, 2, 1, 5] := by decide +kernel
+
+/-! ## `adapter::unblock_matrix`: `A.ptr` -/
+section unblock
+variable {K : Type} [Zero K]
+
+/-- **`unblock_matrix`, `A->ptr`** (block_matrix.hpp:195-209): `set_size(nb·brows, …); ptr[0] = 0;` the width pass
+stores `w(ib)·bcols` into `ptr[ia+1]` for every scalar row `ia = ib·brows + i` (the nest `ib`, `i` visits
+`ia = 0, 1, …` in order), `scan_row_sizes(); set_nonzeros()`: all cells written whatever the heap held; the later
+`ptr[ia] = row_head` / `std::rotate` act on written cells -/
+theorem unblock_ptr_defined (nb brows bcols : Nat) (wB : Nat → Nat) (jp jp' : Array Nat) (jc jc' : Nat → Array Nat)
+    (jv jv' : Nat → Array K)
+    (hp : jp.size = nb * brows + 1) (hc : ∀ k, (jc k).size = k) (hv : ∀ k, (jv k).size = k)
+    (hp' : jp'.size = nb * brows + 1) (hc' : ∀ k, (jc' k).size = k) (hv' : ∀ k, (jv' k).size = k) :
+    (setNonzerosZeroCells (K := K) (nb * brows) (fun ia => wB (ia / brows) * bcols) jp jc jv).ok = true ∧
+      allWritten (setNonzerosZeroCells (K := K) (nb * brows) (fun ia => wB (ia / brows) * bcols) jp jc jv).ptr = true ∧
+      setNonzerosZeroCells (K := K) (nb * brows) (fun ia => wB (ia / brows) * bcols) jp jc jv
+        = setNonzerosZeroCells (K := K) (nb * brows) (fun ia => wB (ia / brows) * bcols) jp' jc' jv' := by
+  obtain ⟨a, b, _, _, _, f⟩ := set_nonzeros_zero_defined (K := K) (nb * brows) (fun ia => wB (ia / brows) * bcols)
+    jp jp' jc jc' jv jv' hp hc hv hp' hc' hv'
+  exact ⟨a, b, f⟩
+
+end unblock
+
+example : erase (setNonzerosZeroCells (K := Rat) (2 * 2) (fun ia => #[1, 2].getD (ia / 2) 0 * 2) #[9, 9, 9, 9, 9]
+    (fun k => Array.replicate k 5) (fun k => Array.replicate k 7)).ptr = #[0, 2, 4, 8, 12] := by decide +kernel
+
+/-! ## `D` of ILU(k) / ILUT -/
+section tri
+variable {α : Type}
+
+/-- **an array allocated uninitialised, stored at `i` while row `i` is processed and loaded only at indices below the
+current row**: every load is legitimate, every cell ends up written, and the outcome is the same for any two prior
+heap contents -/
+theorem tri_defined (n : Nat) (reads : Nat → List Nat) (f : Nat → List α → α) (d : α) (junk junk' : Array α)
+    (hr : ∀ i, i < n → ∀ k ∈ reads i, k < i) (hj : junk.size = n) (hj' : junk'.size = n) :
+    (triCells n reads f d junk).2 = true ∧ allWritten (triCells n reads f d junk).1 = true ∧
+      triCells n reads f d junk = triCells n reads f d junk' :=
+  triCells_spec n reads f d junk junk' hr hj hj'
+
+/-- **`iluk::iluk`, `D`** (iluk.hpp:112-150): row `i` loads `(*D)[a.col]` for the entries taken from the queue of the
+working row — `sparse_vector::add` queues a column only if it is `< dia = i` — and stores `(*D)[i]` once (`w.nz` holds
+the diagonal entry: `reset(i)` inserts it) -/
+theorem iluk_D_defined (n : Nat) (reads : Nat → List Nat) (f : Nat → List α → α) (d : α) (junk junk' : Array α)
+    (hr : ∀ i, i < n → ∀ k ∈ reads i, k < i) (hj : junk.size = n) (hj' : junk'.size = n) :
+    (triCells n reads f d junk).2 = true ∧ allWritten (triCells n reads f d junk).1 = true ∧
+      triCells n reads f d junk = triCells n reads f d junk' :=
+  tri_defined n reads f d junk junk' hr hj hj'
+
+/-- **`ilut::ilut`, `D`** (ilut.hpp:135-171, `move_to` l.363): row `i` loads `(*D)[k]` for `k = w.next_nonzero()`
+(queued columns are `< dia = i`) and `move_to` stores `D[dia]` unconditionally -/
+theorem ilut_D_defined (n : Nat) (reads : Nat → List Nat) (f : Nat → List α → α) (d : α) (junk junk' : Array α)
+    (hr : ∀ i, i < n → ∀ k ∈ reads i, k < i) (hj : junk.size = n) (hj' : junk'.size = n) :
+    (triCells n reads f d junk).2 = true ∧ allWritten (triCells n reads f d junk).1 = true ∧
+      triCells n reads f d junk = triCells n reads f d junk' :=
+  tri_defined n reads f d junk junk' hr hj hj'
+
+end tri
+
+/-- non-vacuity: row `i` reads everything below it; `D[i] = 1 + Σ` of what it read -/
+example : triCells 4 (fun i => List.range i) (fun _ xs => 1 + xs.sum) (0 : Nat) #[9, 9, 9, 9]
+    = triCells 4 (fun i => List.range i) (fun _ xs => 1 + xs.sum) 0 #[1, 2, 3, 4] :=
+  (tri_defined 4 _ _ 0 _ _ (fun i _ k hk => List.mem_range.mp hk) rfl rfl).2.2
+
+example : erase (triCells 4 (fun i => List.range i) (fun _ xs => 1 + xs.sum) (0 : Nat) #[9, 9, 9, 9]).1 = #[1, 2, 4, 8] := by
+  decide +kernel
+
+/-- a read AT the current row (before its store) is flagged: the hypothesis `k < i` is needed -/
+example : (triCells 2 (fun i => [i]) (fun _ xs => 1 + xs.sum) (0 : Nat) #[9, 9]).2 = false := by decide +kernel
+
+/-! ## power iteration of `backend::spectral_radius` -/
+section power
+variable {α : Type}
+
+/-- **`b0`, `b1` of the power iteration** for `power_iters ≥ 1`, any arithmetic and any two prior contents of the two
+allocations: no pass reads a cell that was not written, both vectors end up completely written, and the final state
+is the same -/
+theorem spectral_radius_power_defined (n iters : Nat) (hit : 0 < iters) (init : Nat → α) (scale0 : Nat → α → α)
+    (rowop : Nat → Array α → α) (renorm : Array α → Nat → α) (stop : Array α → Bool) (d : α)
+    (j0 j1 j0' j1' : Array α) (h0 : j0.size = n) (h1 : j1.size = n) (h0' : j0'.size = n) (h1' : j1'.size = n) :
+    (powerCells n iters init scale0 rowop renorm stop d j0 j1).ok = true ∧
+      allWritten (powerCells n iters init scale0 rowop renorm stop d j0 j1).b0 = true ∧
+      allWritten (powerCells n iters init scale0 rowop renorm stop d j0 j1).b1 = true ∧
+      powerCells n iters init scale0 rowop renorm stop d j0 j1
+        = powerCells n iters init scale0 rowop renorm stop d j0' j1' := by
+  unfold powerCells
+  simp only
+  rw [fillVec_alloc n init j0 h0, fillVec_alloc n init j0' h0', updPass_written n scale0 d _ (by simp)]
+  simp only
+  obtain ⟨a, b, c, e⟩ := powerLoop_spec n rowop renorm stop iters
+    (Array.ofFn (n := n) fun i => scale0 i.val ((Array.ofFn (n := n) fun i : Fin n => init i.val).getD i.val d))
+    (by simp) (alloc j1) (alloc j1')
+    (by rw [alloc_size, h1]) (by rw [alloc_size, h1']) hit
+  exact ⟨a, b, c, e⟩
+
+end power
+
+/-- non-vacuity: 3 iterations of "shift and add" on 3 cells -/
+example := spectral_radius_power_defined (α := Nat) 3 3 (by decide) (fun i => i + 1) (fun _ x => 2 * x)
+  (fun i b => b.getD i 0 + b.getD (i + 1) 0) (fun b i => b.getD i 0 + 1) (fun b => b.getD 0 0 == 0) 0
+  #[9, 9, 9] #[8, 8, 8] #[0, 0, 0] #[1, 1, 1] rfl rfl rfl rfl
 
 end Amgcl.C10d
